@@ -26,6 +26,7 @@ type TextOpts struct {
 	LobWS      bool // whitespace inside base64 and around lob content; long clobs
 	WSAroundAn bool // whitespace around ::
 	Dense      bool // minimal whitespace (no padding around punctuation)
+	SIDZeros   bool // symbol identifiers with leading zeros ($007)
 }
 
 // SwarmText draws a random subset of spelling freedoms.
@@ -289,7 +290,11 @@ func (e *textEnc) escapedString(s string, q byte, long bool) []byte {
 func (e *textEnc) symbol(s model.Sym, depth int, inSexp bool, asField bool) {
 	off := len(e.x.b)
 	if !s.HasText || s.ByID {
-		e.x.put(RToken, depth, []byte("$"+strconv.FormatInt(s.SID, 10))...)
+		digits := strconv.FormatInt(s.SID, 10)
+		if e.ch(e.o.SIDZeros, 1, 3) {
+			digits = strings.Repeat("0", 1+e.rnd(2)) + digits
+		}
+		e.x.put(RToken, depth, []byte("$"+digits)...)
 		e.x.site("sid", off, len(e.x.b)-off, depth, s.SID)
 		return
 	}
